@@ -49,6 +49,7 @@ impl TextResource {
     /// key lies in the half-open range, in key order.
     #[verifier::external_body]
     pub fn vx_index_range<'a>(&'a self, begin: usize, end: usize) -> (r: VxRange<'a>)
+        requires begin <= end,   // BTreeMap::range panics when the start lies beyond the end
         ensures r.rem() == entries_between(self.index(), begin as int, end as int),
     { unimplemented!() }
     /// stands for `impl Text for TextResource { fn textlen(&self) -> usize { self.textlen } }`
@@ -195,7 +196,8 @@ def build():
     u.impl(R, 'impl TextResource', [
         Fn('range', props=P, ret='r',
            rewrites=[('R-outline', r'(?s)self\s*\.positionindex\s*\.0\s*\.range\(\(Included\(&begin\), Excluded\(&end\)\)\)', 'self.vx_index_range(begin, end)')],
-           ensures=[('entries_of_the_range', 'r.iter.rem() == entries_between(self.index(), begin as int, end as int)'),
+           # the entries whose position lies in [begin, end): a range that ends before it begins holds nothing
+           ensures=[('entries_of_the_range', 'r.iter.rem() == entries_between(self.index(), begin as int, if end < begin { begin as int } else { end as int })'),
                     ('fresh', 'r.begin2enditer is None && r.end2beginiter is None && *r.resource == *self'),
                     ('ok', 'r.ok()')]),
         Fn('iter', props=P, ret='r',
